@@ -106,6 +106,8 @@ def case_records(case: dict):
         if not d.get("degrees", True):
             deg["ra"], deg["dec"] = np.rad2deg(rec["ra"].astype("f8")), np.rad2deg(rec["dec"].astype("f8"))
         centers = wl.ensure_nonempty_centers(deg, centers)
+        if d.get("boundary") and p["mode"] == "apply" and d.get("degrees", True) and d.get("coord_dtype", "f8") == "f8" and len(centers) > 1:
+            _put_records_near_boundaries(rec, centers, d["data_seed"])
         if p["mode"] == "divide":
             radec = np.deg2rad(np.column_stack([deg["ra"], deg["dec"]]))
             ids, _ = wl.nearest_center(radec, centers)
@@ -116,6 +118,33 @@ def case_records(case: dict):
             pids = ids.astype(p.get("pid_dtype", "i8"))
             centers = None
     return rec, pids, centers
+
+
+def _put_records_near_boundaries(rec: dict, centers: np.ndarray, seed: int) -> None:
+    """Move about a tenth of the records to 1e-9 .. 1e-7 rad from the bisector of two centres: far
+    from a tie in double precision (the model's tie tolerance is 1e-12 relative), within rounding
+    noise of anything narrower.  Left undone if a centre would end up without records."""
+    rng = np.random.default_rng([seed & 0xFFFFFFFF, 0xB0D])
+    n = len(rec["ra"])
+    m = max(2, n // 10)
+    idx = rng.choice(n, size=min(m, n), replace=False)
+    c3 = wl.to_3d(centers)
+    ra, dec = np.array(rec["ra"], dtype="f8"), np.array(rec["dec"], dtype="f8")
+    for i in idx:
+        a, b = rng.choice(len(centers), size=2, replace=False)
+        mid = c3[a] + c3[b]
+        mid /= np.linalg.norm(mid)
+        t = c3[b] - c3[a]
+        t /= np.linalg.norm(t)
+        # also slide along the bisector, so that the points do not pile up
+        u = np.cross(mid, t)
+        q = mid + rng.uniform(-0.02, 0.02) * u + rng.choice([-1.0, 1.0]) * 10.0 ** rng.uniform(-9.0, -7.0) * t
+        q /= np.linalg.norm(q)
+        ra[i] = np.rad2deg(np.arctan2(q[1], q[0]) % (2.0 * np.pi))
+        dec[i] = np.rad2deg(np.arcsin(np.clip(q[2], -1.0, 1.0)))
+    ids, _ = wl.nearest_center(np.deg2rad(np.column_stack([ra, dec])), centers)
+    if (np.bincount(ids, minlength=len(centers)) > 0).all():
+        rec["ra"], rec["dec"] = ra, dec
 
 
 class _Tracer:
@@ -306,7 +335,7 @@ def run_creation(case: dict, root: str, *, sim_kwargs: dict | None = None, trace
     gen_args = None
     if src_kind in ("df", "traced"):
         df = wl.make_dataframe(rec_f, pids_f)
-        source = wl.TracedFrame(df, trace) if src_kind == "traced" else df
+        source = wl.TracedFrame(df, trace, fail_at=int(fault["k"]) if kind == "source_memerror" else None) if src_kind == "traced" else df
     elif src_kind in ("fits", "hdf5", "parquet"):
         source = os.path.join(root, "input" + wl.SOURCE_EXT[src_kind])
         fits_hdu = int(case.get("fits_hdu") or 1) if src_kind == "fits" else 1
@@ -448,7 +477,7 @@ def run_creation(case: dict, root: str, *, sim_kwargs: dict | None = None, trace
         coords_object=coords if not p.get("centers_from_catalog") else None,
         gen_args=gen_args,
         races=sim.file_races(),
-        fault_fired=dict(sim.faults.get("_fired", {})),
+        fault_fired=dict(sim.faults.get("_fired", {}), **({"source_memerror": source.failed} if isinstance(source, wl.TracedFrame) and source.failed else {})),
         degenerate_centres=seeded_tc.degenerate,
         process_errors=[type(e).__name__ for e in sim.objects.get("process_errors", [])],
         main_done=sim.main.done,
